@@ -1870,6 +1870,9 @@ def run_profiled(rec: Rec, D, A, rnd, case, cycles=150):
                           detail=dict(det, transaction=i, locker=lk, ready=rdy[t], runnable=rnb[t], conflicts=pdata.transaction_conflicts[i]))
             elif rdy[t] and rnb[t] and i not in running:
                 rec.count("ready_runnable_idle_without_lock_record")
+                if any(c in running for c in pdata.transaction_conflicts[i]):
+                    # the converse of the locked clause is NOT part of C35 ("locked only when ..."): reported as a statistic, never as a violation
+                    rec.count("statistic:idle_transaction_with_running_conflicting_transaction_not_marked_locked")
         rec.count("cycles")
     stats = profile.analyze_transactions()
     tids = [i for i, info in profile.transactions_and_methods.items() if info.is_transaction]
